@@ -153,6 +153,10 @@ def gen_factory(tier):
                         ops = [op_ctx(), op_setvar("A", x), op_setvar("B", y)]
                         for k, o in enumerate(BIN_DEC):
                             ops.append(op_run(prog("%s %s %s" % (fa, o, fb), "r%d" % k)))
+                        # the same operation with the integer operand converted first: an operation with a decimal operand is carried
+                        # out in double precision, so both must answer alike (value or DIVIDE_BY_ZERO)
+                        for k, o in enumerate(BIN_DEC):
+                            ops.append(op_run(prog(("num(a) %s b" if order == 0 else "a %s num(b)") % o, "q%d" % k)))
                         ops.append(op_dump())
                         yield Case("mx%d" % n, ops, {"kind": "id" if order == 0 else "di", "a": a, "b": b.hex() if b == b else "nan", "form": fi})
                         n += 1
@@ -353,6 +357,11 @@ def check(case, res):
         for k, o in enumerate(BIN_DEC):
             zero_div = o in ("/", "%") and fy == 0.0
             expect(k, o, tn, ("d", fop(o, fx, fy)), 3, accept_dz=zero_div)
+            if kind in ("id", "di"):
+                g, q = got(k), parse_val(dump.get("Q%d" % k))
+                if g[0] != q[0] or (g[0] == "d" and not same_double(g[1], q[1])) or (g[0] != "d" and g != q):
+                    vs.append(Violation("%s:%s:differs-from-converted-operand" % (o, tn.split(":")[0]),
+                                        "%s on %s gives %s, with the integer operand converted by num() first %s" % (o, m, g, q), case))
     elif kind == "du":
         x = parse_val(dump.get("A"))[1]
         t = math.trunc(x) if (x == x and abs(x) != float("inf")) else None
